@@ -275,7 +275,7 @@ pub fn run(o: &DriveOpts, out: &mut dyn Write, tid: usize) -> Value {
             // next_id only while an absent id at or above the allocator position remains
             let sn = w.g(0).snap();
             let room = (sn.next_v..sn.capacity).any(|i| sn.slots[i].as_ref().map(|s| s.tag == 0).unwrap_or(false));
-            if room && rng.gen_bool(0.35) {
+            if room && profile != "slice" && rng.gen_bool(0.35) {
                 Some(Call::NextId)
             } else {
                 None
